@@ -19,10 +19,13 @@ def overlapping_exons(case):
     return any(a[0] < b[1] and b[0] < a[1] for i, a in enumerate(parts) for b in parts[i + 1:])
 
 
-C13_LENS = {"A": 40, "B": 100, "regulatorR": 40}      # profile lengths of the C13 universe
+C13_LENS = {"A": 40, "B": 100, "regulatorR": 40, "Z": 400}      # profile lengths of the C13 universe
 
 
 PREDICATES = {
+    # a hit of a much longer profile between two hits: each is only compared with the last hit kept, under that pair's margin
+    "C13-F3": lambda case, clause: case.get("kind") == "refine" and clause == "outputs-overlap-beyond-margin"
+    and any(h[0] == "Z" for h in case["hits"]),
     # sideloaded areas whose detail names are also names of qualifiers antiSMASH writes for the area itself
     "C10-F4": lambda case, clause: case.get("sideload") == "reserved-detail-keys" and clause in (
         "genbank-description-differs", "genbank-not-a-fixed-point", "json-description-differs", "json-not-a-fixed-point", "json-areas-differ"),
